@@ -996,3 +996,55 @@ func runCloseRecordedBeforeWrite(c *Ctx) {
 	c.CheckAt("C31.R4", "(*internal/websocket.Conn).WriteControl: a close frame is recorded before it is written", w.Pos(fn.Pos()), bad == nil,
 		"recorded after the write, the peer's close reply can be recorded first by the read loop: a close this side initiated is reported as initiated by the peer"+instrAt(w, bad))
 }
+
+func init() {
+	r4doc("C06", "C06.R6", "K2: the compensation scan visits every snapshot item (no exit on the first raced channel)")
+	round3Hooks["C06"] = append(round3Hooks["C06"], runCompensationScansAll)
+}
+
+// runCompensationScansAll (C06.R6): a presence tick can race several unsubscribes at once
+// (Node.Unsubscribe(user, "") tears down all channels of a connection back to back), so the scan that
+// finds raced channels must go on after the first hit: on the not-found edge of the membership lookup the
+// path returns to the loop test before it can leave the loop.
+func runCompensationScansAll(c *Ctx) {
+	w := c.W
+	fn := w.Func("centrifuge", "(*Client).compensateRacedPresence")
+	if !c.Anchor("C06.R6", "(*Client).compensateRacedPresence", fn) {
+		return
+	}
+	isLoopTest := func(in ssa.Instruction) bool {
+		ifi, ok := in.(*ssa.If)
+		if !ok {
+			return false
+		}
+		b, ok := ifi.Cond.(*ssa.BinOp)
+		return ok && b.Op == token.LSS && strings.HasPrefix(D(b.Y), "len(")
+	}
+	n := 0
+	for _, b := range fn.Blocks {
+		if len(b.Instrs) == 0 {
+			continue
+		}
+		ifi, ok := b.Instrs[len(b.Instrs)-1].(*ssa.If)
+		if !ok {
+			continue
+		}
+		ex, ok := ifi.Cond.(*ssa.Extract)
+		if !ok || ex.Index != 1 {
+			continue
+		}
+		lk, ok := ex.Tuple.(*ssa.Lookup)
+		if !ok || !loadsField(lk.X, "Client", "channels") {
+			continue
+		}
+		n++
+		// not found = false edge of `ok`
+		bad := PathQ{
+			Stop: isLoopTest,
+			Goal: func(x ssa.Instruction) bool { return isReturn(x) || isUnlockOf(x, "Client") },
+		}.FromBlock(b.Succs[1])
+		c.Check("C06.R6", ifi, "after a raced channel is found the scan goes on to the next snapshot item", bad == nil,
+			"one tick can race several channels (an all-channels unsubscribe): stopping at the first leaves the others with a presence entry for a connection that is not subscribed"+instrAt(w, bad))
+	}
+	c.Anchor("C06.R6", "membership lookup in compensateRacedPresence", n >= 1)
+}
